@@ -366,6 +366,12 @@ func (x *Exec) checkRegionAssignable(st *State, r Region, pos, callee string) {
 	}
 	var alts []Term
 	for _, a := range st.assign {
+		if !r.IsElem && r.RootKey == "ghost" && a.IsElem && a.Lo.S == "" {
+			// ghost state attached to an array the caller may overwrite entirely (e.g. ownership of a
+			// slice it allocated) may change with it
+			alts = append(alts, Eq(a.Arr, r.Ref))
+			continue
+		}
 		if a.IsElem != r.IsElem {
 			continue
 		}
